@@ -27,7 +27,12 @@ Judge(e) ==
          ELSE IF ~Iso(T3(e.both) \cup T3(e.second), T3(e.h)) THEN "DiffSecond"
          ELSE IF T3(e.first) \cap T3(e.second) # {} THEN "DiffDisjoint"
          ELSE "ok"
-    [] e.op = "skolem" -> IF Iso(T3(e.g), T3(e.g2)) THEN "ok" ELSE "SkolemRoundTrip"
+    [] e.op = "skolem" -> IF ~Iso(T3(e.g), T3(e.g2)) THEN "SkolemRoundTrip"
+                          ELSE IF "sk_bnodes" \in DOMAIN e /\ e.sk_bnodes # 0 THEN "SkolemisedHasNoBlankNodes" ELSE "ok"
+    [] e.op = "eq_history" ->      \* equality of to_isomorphic graphs is decided on what the graphs hold NOW, whichever way they came to hold it
+         IF \E i \in 1..Len(e.steps) : e.steps[i].eq # Iso(T3(e.steps[i].now), T3(e.h)) THEN "IsoAgrees:history"
+         ELSE IF \E i \in 1..Len(e.steps) : e.steps[i].eq_rev # e.steps[i].eq \/ e.steps[i].ne = e.steps[i].eq THEN "IsoAgrees:symmetric"
+         ELSE "ok"
     [] e.op = "classes" ->      \* the partition by rdflib's digest equals the partition into isomorphism classes
          IF \E i \in 1..Len(e.graphs) : \E j \in (i + 1)..Len(e.graphs) :
                (e.digests[i] = e.digests[j]) # Iso(T3(e.graphs[i]), T3(e.graphs[j])) THEN "DigestPartition" ELSE "ok"
